@@ -27,6 +27,8 @@ pub enum EscStyle {
     Random,
     /// escape everything that can be escaped with \uXXXX (upper-case)
     AllUnicodeUpper,
+    /// like Minimal, and the solidus written as `\/` (an optional escape)
+    Solidus,
 }
 
 #[derive(Debug, Clone)]
@@ -177,6 +179,16 @@ pub fn quote(s: &str, dq: bool, esc: EscStyle, rng: &mut Option<Rng>, out: &mut 
                 }
             }
             EscStyle::AllUnicodeUpper => uni(true, out),
+            EscStyle::Solidus => {
+                if must_escape || c == '/' {
+                    match short {
+                        Some(e) => out.push_str(e),
+                        None => uni(true, out),
+                    }
+                } else {
+                    out.push(c);
+                }
+            }
             EscStyle::Random => {
                 let r = rng.as_mut().map(|r| r.below(8)).unwrap_or(0);
                 match r {
